@@ -385,6 +385,25 @@ func init() {
 					if ob.String() != oc.String() {
 						res.Violate("closest:binary-differs", fmt.Sprintf("real binary and instrumented build disagree: %s vs %s", ob.String(), oc.String()), c)
 					}
+					// -d equal to the exact distance of a target, passed through the flag parser as text
+					if m != "snp" && idx%3 == 0 {
+						for ti, tseq := range ts {
+							d, defined := distModel(m, c.full(c06Queries[0]), c.full(tseq))
+							if !defined || d == 0 || ti > 2 {
+								continue
+							}
+							dc := c
+							dc.N, dc.HasDist, dc.MaxDist, dc.Table = 0, true, d, true
+							dcall := dc.call()
+							od, _ := dcall.CLI(nil, c.Threads)
+							oi := dcall.Canon()
+							res.Evals++
+							res.Validated++
+							if od.String() != oi.String() {
+								res.Violate("closest:binary-differs", fmt.Sprintf("-d %v (the exact %s distance of a target): real binary %s; in-process %s", d, m, od.String(), oi.String()), dc)
+							}
+						}
+					}
 					// --measure is documented and parsed case-insensitively
 					if idx%4 == 0 {
 						up := call
